@@ -98,6 +98,7 @@ def expected_paths_with_hops(g, a, z, hops):
 
 STITCHED = [0]
 REFUSED = [0]
+GROWN = [0]
 
 
 def install(imps, store, g, rng, ndecoy, stitch=False):
@@ -128,7 +129,29 @@ def install(imps, store, g, rng, ndecoy, stitch=False):
     # internal position each time): nothing remembered about an earlier graph of that id may leak into the queries
     desc = g.desc()
     desc = dict(desc, nodes=rng.sample(desc['nodes'], len(desc['nodes'])))
-    imp.storage.add_graph('target', rawgraph.to_nx(desc, key_style=rng.randrange(3)))
+    late = None
+    if store == 'disjoint' and len(g.ids) >= 2 and rng.random() < 0.35:
+        # the graph gets its final shape through a small history: it arrives with an extra node (stored first) and without one of
+        # its own; the extra node is deleted, an import under the same id is offered (and skipped, as documented for this backend),
+        # then the missing node and its links are added.  The queries run on exactly g.
+        late = rng.choice(g.ids)
+        ids0 = [i for i in g.ids if i != late]
+        g0 = G(['x-gone'] + ids0, dict({i: g.cls[i] for i in ids0}, **{'x-gone': g.cls[late]}),
+               {k: v for k, v in g.edges.items() if late not in k})
+        desc0 = g0.desc()
+        desc0 = dict(desc0, nodes=[n for n in desc0['nodes'] if n['id'] == 'x-gone'] + [n for n in desc0['nodes'] if n['id'] != 'x-gone'])
+        imp.storage.add_graph('target', rawgraph.to_nx(desc0, key_style=rng.randrange(3)))
+        h = cls(graph_id='target', importer=imp)
+        h.delete_node(node_id='x-gone')
+        imp.storage.add_graph('target', rawgraph.to_nx(desc0, key_style=0))
+        h.add_node(node_id=late, label=g.cls[late], props={'Name': 'name-' + late})
+        for k, rel in g.edges.items():
+            if late in k:
+                other = [x for x in k if x != late][0]
+                h.add_link(node_a=late, rel=rel, node_b=other)
+        GROWN[0] += 1
+    else:
+        imp.storage.add_graph('target', rawgraph.to_nx(desc, key_style=rng.randrange(3)))
     if ndecoy:
         imp.storage.add_graph('decoy-after', rawgraph.to_nx(G(g.ids, g.cls, {}).desc(), key_style=0))
     pg = cls(graph_id='target', importer=imp)
@@ -381,6 +404,7 @@ def run(ctx):
                 break
     ctx.count('graphs:stitched-to-a-decoy(cross-graph edges present)', STITCHED[0])
     ctx.count('graphs:installed-after-a-refused-import', REFUSED[0])
+    ctx.count('graphs:completed-by-delete-skipped-import-add', GROWN[0])
     for imp, _ in imps.values():
         imp.delete_all_graphs()
 
